@@ -109,13 +109,31 @@ def command(engine, args, cpus=None, miri_seed=None, miri_cpus=None, miri_many=N
     return argv, env
 
 
+def excerpt(stderr):
+    """The informative part of a report: from the first error marker, a few frames, and the summary."""
+    lines = stderr.splitlines()
+    start = 0
+    for i, l in enumerate(lines):
+        if ("ERROR: AddressSanitizer" in l or "WARNING: ThreadSanitizer" in l or "LeakSanitizer" in l or l.startswith("error:")
+                or "unsafe precondition" in l or "non-unwinding panic" in l):
+            start = i
+            break
+    else:
+        return stderr[-3000:]
+    head = lines[start:start + 28]
+    summ = [l for l in lines[start + 28:] if l.startswith("SUMMARY:") or "in repo frame" in l]
+    repo = [l.strip() for l in lines[start:] if "/repo/src/" in l][:6]
+    out = head + (["  ..."] if len(lines) > start + 28 else []) + ["  frames in /repo: "] + ["    " + x for x in repo] + summ[:2]
+    return "\n".join(out)[:5000]
+
+
 FRAME = re.compile(r"(/repo/src/[\w/]+\.rs):(\d+)")
 
 
 def classify_failure(engine, rc, stderr):
     """Name the kind of an abnormal process end; returns (kind, site, excerpt) or None
     if the end is not attributable to the code under test."""
-    tail = stderr[-6000:]
+    tail = excerpt(stderr)
     m = FRAME.search(stderr)
     site = m.group(1) if m else ""
     if "AddressSanitizer" in stderr and "ERROR: AddressSanitizer" in stderr:
